@@ -576,6 +576,11 @@ def list_apply(ctx):
             if ids and hows <= how:
                 if v == 'Insert':
                     vals = [a for a in c.args[1:] if param_path(a.val) and param_path(a.val)[1][-1:] == ('Insert.val',)]
+                    if not vals:
+                        # entry API: the value is handed to or_insert on the entry returned by this call
+                        for b3, c3 in it.calls.items():
+                            if call_name(c3.term) in ('or_insert', 'or_insert_with', 'insert_entry', 'insert') and c3.args and drop_lv(c3.args[0].val) == drop_lv(c.term):
+                                vals = [a for a in c3.args[1:] if param_path(a.val) and param_path(a.val)[1][-1:] == ('Insert.val',)]
                     if vals:
                         good.append(bb)
                     else:
